@@ -571,8 +571,10 @@ def main():
     os.makedirs(os.path.dirname(OUT), exist_ok=True)
     old = open(OUT).read() if os.path.exists(OUT) else None
     if old != txt:
-        with open(OUT, "w") as fh:
+        _tmp = OUT + ".tmp%d" % os.getpid()
+        with open(_tmp, "w") as fh:
             fh.write(txt)
+        os.replace(_tmp, OUT)  # atomic: a concurrent coqc never sees a partial file
     # the generated file is written first (the translated functions are fine); a changed hand-modelled
     # function still aborts the run below
     changed = pinned_shape_changes(osrc)
